@@ -482,6 +482,7 @@ def expand(prog, f, depth=2, local_only=False, skip_names=()):
     _propagate_generator_temps(root)
     root = _propagate_callable_temps(root)
     root = _FuseGen().visit(root)   # generator arguments substituted into helper comprehensions fuse with them
+    root = _fold_record_constants(prog, f.module, root)
     ast.fix_missing_locations(root)
     return root
 
@@ -490,6 +491,54 @@ def _is_inliner_temp(name):
     import re
 
     return name.startswith("hoist__") or re.fullmatch(r".+__.+_\d+", name) is not None
+
+
+def _fold_record_constants(prog, module, root):
+    """`K.f`, K a module constant built by a record constructor from literals (`_X_AXIS = _Axis(offset="x", ...)`), reads as the
+    literal; `getattr(o, "a")` / `setattr(o, "a", v)` with the name now literal read as the attribute access they perform."""
+    from . import records as R_
+
+    if not any(isinstance(n, ast.Attribute) and isinstance(n.value, ast.Name) and n.value.id in module.assigns for n in ast.walk(root)):
+        return root
+    bound = {n.id for n in ast.walk(root) if isinstance(n, ast.Name) and isinstance(n.ctx, (ast.Store, ast.Del))}
+    bound |= {a.arg for fn in ast.walk(root) if isinstance(fn, (ast.FunctionDef, ast.Lambda)) for a in fn.args.args + fn.args.kwonlyargs}
+    changed = [False]
+
+    class F(ast.NodeTransformer):
+        def visit_Attribute(self, n):
+            self.generic_visit(n)
+            if isinstance(n.value, ast.Name) and isinstance(n.ctx, ast.Load) and n.value.id not in bound:
+                k = module.assigns.get(n.value.id)
+                if isinstance(k, ast.Call):
+                    fs = R_.fields_of(prog, module, k.func)
+                    cs = R_.components(prog, module, k) if fs else None
+                    if cs and n.attr in fs and isinstance(cs[fs.index(n.attr)], ast.Constant):
+                        changed[0] = True
+                        return ast.copy_location(ast.Constant(value=cs[fs.index(n.attr)].value), n)
+            return n
+
+    root = F().visit(root)
+    if not changed[0]:
+        return root
+
+    def lit(e):
+        return isinstance(e, ast.Constant) and isinstance(e.value, str) and e.value.isidentifier()
+
+    class G(ast.NodeTransformer):
+        def visit_Call(self, n):
+            self.generic_visit(n)
+            if isinstance(n.func, ast.Name) and n.func.id == "getattr" and len(n.args) == 2 and not n.keywords and lit(n.args[1]):
+                return ast.copy_location(ast.Attribute(value=n.args[0], attr=n.args[1].value, ctx=ast.Load()), n)
+            return n
+
+        def visit_Expr(self, st):
+            v = st.value
+            if isinstance(v, ast.Call) and isinstance(v.func, ast.Name) and v.func.id == "setattr" and len(v.args) == 3 and not v.keywords and lit(v.args[1]):
+                return ast.copy_location(ast.Assign(targets=[ast.Attribute(value=v.args[0], attr=v.args[1].value, ctx=ast.Store())],
+                                                    value=self.visit(v.args[2]), type_comment=None), st)
+            return self.generic_visit(st)
+
+    return G().visit(root)
 
 
 def _propagate_callable_temps(root):
